@@ -49,10 +49,11 @@ def run_prog(prog, args, rng, controlled=True, is_async=False, config=None):
     kvalue._K.cur = keys
     registry = {}
     cimpl, cref = {}, {}
+    recorder = []
     ref_f = kvalue.build_plain(prog, cref)
     ref = outcome(lambda: ref_f(*args))
     try:
-        d = kvalue.build_tawazi(prog, registry, is_async=is_async, counter=cimpl)
+        d = kvalue.build_tawazi(prog, registry, is_async=is_async, counter=cimpl, recorder=recorder)
     except BaseException as e:  # noqa: BLE001
         return dict(impl=("build-raise", e), ref=ref, cimpl=cimpl, cref=cref, ctl=None, dag=None, registry=registry, keys=keys)
     if config is not None:
@@ -66,7 +67,7 @@ def run_prog(prog, args, rng, controlled=True, is_async=False, config=None):
         st = tz.run_controlled(lambda: d(*args), ctl, is_async=True)
     else:
         st = tz.run_controlled(lambda: d(*args), ctl)
-    return dict(impl=st, ref=ref, cimpl=cimpl, cref=cref, ctl=ctl, dag=d, registry=registry, keys=keys)
+    return dict(impl=st, ref=ref, cimpl=cimpl, cref=cref, ctl=ctl, dag=d, registry=registry, keys=keys, recorder=recorder)
 
 
 def compare(r):
@@ -148,6 +149,86 @@ def model_items(prog, r, with_labels=True):
             except sched_cases.Unparsable:
                 pass
     return out
+
+
+def canonical_embed(prog, r, args):
+    """K-build for a describing function without nested calls: the program's OWN table (statement i is node
+    s_i, parameters p_j, one constant holder per constant occurrence) must be embedded in the table tawazi
+    built, through the map statement -> the id tawazi gave its node.  -> Coq term or None"""
+    d, ctl, keys = r["dag"], r["ctl"], r["keys"]
+    rec = r.get("recorder")
+    if d is None or ctl is None or not ctl.cfgs or rec is None or any(st["op"] == "sub" for st in prog["stmts"]):
+        return None
+    from .engine_kcompose import stmt_id
+    sids = [stmt_id(o) for o in rec]
+    if len(sids) != len(prog["stmts"]) or any(s is None or s not in d.exec_nodes for s in sids):
+        return None
+    names1 = ["s%d" % i for i in range(len(sids))] + ["p%d" % j for j in range(len(prog["params"]))]
+    rho = {}
+    for i, s in enumerate(sids):
+        rho["s%d" % i] = s
+    for j, u in enumerate(d.input_uxns):
+        rho["p%d" % j] = u.id
+    res1 = {}
+    for j, p in enumerate(prog["params"]):
+        if j < len(args):
+            res1["p%d" % j] = args[j]
+        elif p["default"] is not None:
+            res1["p%d" % j] = kvalue.Const(*p["default"])
+    rows = []
+    deps1 = {}
+
+    def ref_of(expr, i, slot, impl_uxn):
+        if expr[0] == "var":
+            return ("s%d" % expr[1], list(expr[2]))
+        if expr[0] == "param":
+            return ("p%d" % expr[1], [])
+        h = "k%d_%s" % (i, slot)
+        names1.append(h)
+        res1[h] = kvalue.Const(expr[1], expr[2]) if expr[0] == "const" else (None if expr[0] == "nonec" else bool(expr[1]))
+        if impl_uxn is not None:
+            rho[h] = impl_uxn.id
+        return (h, [])
+
+    for i, st in enumerate(prog["stmts"]):
+        xn = d.exec_nodes[sids[i]]
+        iargs = list(xn.args)
+        ikw = {k.split(".")[-1]: u for k, u in xn.kwargs.items()}
+        refs = []
+        if st["op"] == "call":
+            f = prog["funs"][st["f"]]
+            fc = kvalue.fcode_of(f, st["f"] in prog.get("fails", []))
+            for pos, ex in enumerate(st["args"]):
+                refs.append(ref_of(ex, i, "a%d" % pos, iargs[pos] if pos < len(iargs) else None))
+            for name, ex in st["kwargs"].items():
+                refs.append(ref_of(ex, i, "k" + name, ikw.get(name)))
+            act = ref_of(st["active"], i, "f", xn.active) if st.get("active") is not None else None
+        elif st["op"] == "oper":
+            fc = "(FOp %d)" % kvalue.OPS[st["o"]]
+            for pos, ex in enumerate(st["args"]):
+                refs.append(ref_of(ex, i, "a%d" % pos, iargs[pos] if pos < len(iargs) else None))
+            act = None
+        else:
+            fc = {"and": "FAnd", "or": "FOr", "not": "FNot"}[st["o"]]
+            for pos, ex in enumerate(st["args"]):
+                refs.append(ref_of(ex, i, "a%d" % pos, iargs[pos] if pos < len(iargs) else None))
+            act = None
+        rows.append(("s%d" % i, refs, act, fc))
+        deps1["s%d" % i] = sorted({x for x, _ in refs} | ({act[0]} if act else set()))
+    cfg2 = ctl.cfgs[0]
+    ids = coqrun.Ids(set(names1) | kvalue.all_ids(d) | set(cfg2["nodes"]))
+    rr = lambda t: "(mkref %d %s)" % (ids(t[0]), coqrun.nat_list([keys(k) for k in t[1]]))  # noqa: E731
+    specs1 = "[" + "; ".join("(%d, mknspec [%s] %s %s)" % (ids(nm), "; ".join(rr(x) for x in refs), "None" if act is None else "(Some %s)" % rr(act), fc) for nm, refs, act, fc in rows) + "]"
+    specs2, err = kvalue.table_coq(d, ids, keys, r["registry"])
+    if specs2 is None:
+        return None
+    nodes1 = sorted(set(names1))
+    cfg1 = dict(nodes=nodes1, deps={n_: deps1.get(n_, []) for n_ in nodes1}, pre=sorted(n_ for n_ in nodes1 if n_ in res1), maxc=1,
+                cp={n_: 0 for n_ in nodes1}, seq={n_: False for n_ in nodes1}, res={n_: "thread" for n_ in nodes1})
+    rho_l = "[" + "; ".join("(%d, %d)" % (ids(a), ids(b)) for a, b in sorted(rho.items())) + "]"
+    term = "embed_check %s %s %s %s %s %s %s []" % (specs1, specs2, coqrun.sched_cfg_coq(cfg1, ids), coqrun.sched_cfg_coq(cfg2, ids),
+                                                    kvalue.res0_coq(res1, ids, keys), kvalue.res0_coq(ctl.res0s[0], ids, keys), rho_l)
+    return dict(term=term, ids=ids)
 
 
 def decode_kvalue(v):
@@ -262,6 +343,7 @@ def run(pid, tier, seed, res, p_sub=None, p_flag=None, only=None):
         argsets = [kvalue.gen_args(rng, prog) for _ in range(2)] if fixed_args is None else [fixed_args[pi], fixed_args[pi]]
         for ai, args in enumerate(argsets):
             how = rng.choice(CONFIGS) if ai == 1 else "none"
+            config_how = how
             is_async = rng.random() < 0.35
             r = run_prog(prog, args, random.Random(rng.random()), controlled=rng.random() < 0.7, is_async=is_async, config=make_config(rng, prog, how, tmpdir))
             res.evaluations += 1
@@ -315,6 +397,11 @@ def run(pid, tier, seed, res, p_sub=None, p_flag=None, only=None):
             if "kvrun" in m:
                 where.append(("kvrun", pi, ai, r, m, base))
                 items.append(m["kvrun"])
+            if r["impl"][0] == "ok" and config_how == "none":
+                ce = canonical_embed(prog, r, args)
+                if ce is not None:
+                    where.append(("canon", pi, ai, r, ce, base))
+                    items.append(ce["term"])
             if r["impl"][0] == "ok":
                 for em in m.get("embeds", []):
                     if "error" in em:
@@ -343,6 +430,14 @@ def run(pid, tier, seed, res, p_sub=None, p_flag=None, only=None):
             continue
         (si, vi) = r["impl"]
         props_ = ["C01", "C02"] + (["C10"] if has_flags(prog) else []) + (["C20"] if has_subs(prog) else [])
+        if kind == "canon":
+            res.traces_validated += 1
+            if v:
+                codes = [(v[i], m["ids"].names[v[i + 1]]) for i in range(0, len(v), 2)][:4]
+                for p in ["C01"] + (["C10"] if has_flags(prog) else []):
+                    res.hit(p, "divergence", "K-build: the describing function's own table is not embedded in the table tawazi built (codes %s; 1 node missing, 2 function, 3 arguments / key paths, 4 flag, 5 constant or parameter value, 6 absent id)" % codes,
+                            dict(base, kind="divergence", codes=codes))
+            continue
         if kind == "embedA":
             m["_a"] = v
             continue
